@@ -179,9 +179,9 @@ class Ctx:
             return False
         return True
 
-    def gv(self, sub, extra=(), timeout=3000):
+    def gv(self, sub, extra=(), timeout=3000, scratch=None):
         cmd = [GV, sub, "--seed", str(self.seed), "--tier", self.tier, "--out", self.run_dir] + list(extra)
-        env = dict(ENV, GV_SCRATCH=os.path.join(CACHE, "scratch"), GV_VERIF=VERIF,
+        env = dict(ENV, GV_SCRATCH=scratch or os.path.join(CACHE, "scratch"), GV_VERIF=VERIF,
                    GV_REPO=os.environ.get("GV_REPO", "/repo"))
         p = subprocess.run(cmd, env=env, stdout=subprocess.PIPE, stderr=subprocess.STDOUT, text=True, timeout=timeout)
         if p.returncode != 0:
